@@ -64,7 +64,7 @@ const MaxPermRules = 5
 
 // NPerms returns the number of enumerable orders of k rules.
 func NPerms(k int) int {
-	if k > MaxPermRules {
+	if k > MaxPermRules || (!probing && !OrderLive()) {
 		return 1
 	}
 	return len(Perms(k))
